@@ -387,9 +387,9 @@ Example C20_renaming_nonvacuous :
         ([[f (TVar 3); TVar 4; TVar 4]; [f (TVar 3); h (TVar 5); k (TVar 5)];
           [g (TVar 4) (TVar 5); TVar 6; TVar 6]; [g (TVar 4) (TVar 5); h (TVar 7); k (TVar 7)]], false) /\
       ans 1 (nquery 6 (mk_world ir (py_table_src rn_specs) [] []) (d "l") [TVar 0] (st0 1)) =
-        ([[mk_list [f (TVar 2); g (TVar 3) (TVar 4)]]], false) /\
+        ([[mk_list [f (TVar 4); g (TVar 7) (TVar 8)]]], false) /\
       ans 1 (nquery 6 (mk_world irf [] [] []) (d "l") [TVar 0] (st0 1)) =
-        ([[mk_list [f (TVar 2); g (TVar 4) (TVar 5)]]], false)
+        ([[mk_list [f (TVar 4); g (TVar 8) (TVar 9)]]], false)
   | _, _ => False
   end.
 Proof.
